@@ -112,6 +112,14 @@ def oracle(reads, k, sel):
             out.append((KEY_MAXIMAL_PREF if f9 else "maximal",
                         f"read {i} left out although every variant it spans is spanned by at most {m} < {k} selected reads"))
             break
+    # preferred reads come first (Props.C07.preferred_first): a preferred read is left out only when k selected PREFERRED
+    # reads span one of its variants already
+    pcnt = {p: sum(1 for j in s if reads[j][2] and spans(reads[j], p)) for p in positions}
+    for i in range(n):
+        if reads[i][2] and i not in s and not any(spans(reads[i], p) and pcnt[p] >= k for p in positions):
+            out.append(("preferred-first", f"preferred read {i} left out although no variant it spans is spanned by {k} selected "
+                                           f"preferred reads"))
+            break
     return out
 
 
@@ -177,6 +185,7 @@ class Lib:
             if impl != "ValueError" and not short:
                 py = oracle(case["reads"], case["k"], impl)
                 lean = ans[0]
+                py = [x for x in py if x[0] != "preferred-first"]
                 pyflags = {"subset": not any(k == "subset" for k, _ in py), "cap": not any(k == "cap" for k, _ in py),
                            "maximal": not any(k in ("maximal", KEY_MAXIMAL_PREF) for k, _ in py)}
                 if pyflags["subset"] and lean != pyflags:
@@ -559,6 +568,7 @@ def gen_pipe_scenario(rng):
     p["cap"] = rng.choice([1, 2, 2, 3, 3, 4, 6, 0, -3, 23, 24])
     p["merge_reads"] = False            # selection then works on merged reads the trace does not show as candidates
     p["read_list"] = False
+    p["phased_vcf_input"] = rng.random() < 0.35      # pseudo reads of a phase-input VCF are the preferred reads
     if p["cap"] >= 23:
         p["n_variants"] = [6, 10]
     return {"pipe": c}
